@@ -2463,6 +2463,15 @@ func (d *Data) ServeHTTP(uuid dvid.UUID, ctx *datastore.VersionedCtx, w http.Res
 				server.BadRequest(w, r, err)
 				return
 			}
+			// Like POST raw, grow the advertised extents to cover the written blocks.
+			if blockSize, ok := d.BlockSize().(dvid.Point3d); ok && span > 0 {
+				last := bcoord
+				last[0] += int32(span - 1)
+				if err := d.PostExtents(ctx, bcoord.MinPoint(blockSize), last.MaxPoint(blockSize)); err != nil {
+					server.BadRequest(w, r, err)
+					return
+				}
+			}
 		}
 		timedLog.Infof("HTTP %s: Blocks (%s)", r.Method, r.URL)
 
